@@ -28,9 +28,11 @@ RULE = ('Program templates (test_start present/absent; plain phases; group with 
         'bodies of one test never overlap; no body starts after the record was handed to the callbacks.  Non-trivial = the abort '
         'landed strictly inside the run (after the executor was created, before finalisation); distinct by (template, injection points).')
 ASSUMPTIONS = ['Signal delivery is modelled: the handler runs on the execute() thread at its next yield point or interrupts its wait.',
-               'Bodies that swallow ThreadTerminationError are excluded from the overlap invariant (they outlive their phase by construction).']
+               'Bodies that swallow ThreadTerminationError and keep running are excluded from the overlap invariant (they outlive their phase by construction); '
+               'bodies that need clean-up time shorter than cancel_timeout_s after the kill (template slow-exit) are included: the executor waits for them.',
+               'A body that ran into its own phase timeout (180 virtual seconds) is abandoned by design (C12) and not counted as overlapping.']
 
-TEMPLATES = ['plain3', 'start+plain', 'group', 'group-setup-blocks', 'nested', 'subtest', 'force-repeat', 'repeat-result', 'teardown-blocks', 'swallow', 'start-blocks', 'two-groups']
+TEMPLATES = ['plain3', 'start+plain', 'group', 'group-setup-blocks', 'nested', 'subtest', 'force-repeat', 'repeat-result', 'teardown-blocks', 'swallow', 'start-blocks', 'two-groups', 'slow-exit']
 
 
 def _spawn(fn, name):
@@ -52,6 +54,13 @@ def build(template, htf, s, log):
       elif kind == 'block':
         while True:       # blocks "forever" but wakes once per virtual second so that a kill can be delivered
           s.sleep(1.0)
+      elif kind == 'slow-exit':
+        try:
+          while True:
+            s.sleep(1.0)
+        except threads.ThreadTerminationError:
+          s.sleep(1.0)    # clean-up that takes less than cancel_timeout_s (2 s): the executor waits for it
+          raise
       elif kind == 'swallow':
         try:
           s.sleep(5.0)
@@ -106,6 +115,8 @@ def build(template, htf, s, log):
     nodes = [G(main=[mk('m1', 'main')], teardown=[mk('t1', 'teardown', 'block'), mk('t2', 'teardown')])]
   elif template == 'swallow':
     nodes = [G(main=[mk('m1', 'main', 'swallow'), mk('m2', 'main')], teardown=[mk('t1', 'teardown')])]
+  elif template == 'slow-exit':
+    nodes = [G(main=[mk('m1', 'main', 'slow-exit'), mk('m2', 'main')], teardown=[mk('t1', 'teardown')]), mk('after', 'main')]
   elif template == 'two-groups':
     nodes = [G(main=[mk('m1', 'main', 'sleep')], teardown=[mk('t1', 'teardown')]), G(setup=[mk('s2', 'setup', 'sleep')], main=[mk('m2', 'main')], teardown=[mk('t2', 'teardown')])]
   else:
@@ -311,7 +322,7 @@ def check(case):
       r.bad('C04/plug-teardown-skipped', '%s plan=%r log=%r' % (tag, case.get('plan'), log))
     started = {e[1] for _, e in starts}
     pairs = {'group': [('m1', ['t1', 't2'])], 'nested': [('im', ['it', 't1']), ('m1', ['t1'])], 'subtest': [('m', ['t'])],
-             'teardown-blocks': [('m1', ['t1'])], 'swallow': [('m1', ['t1'])], 'two-groups': [('m1', ['t1']), ('m2', ['t2'])]}
+             'teardown-blocks': [('m1', ['t1'])], 'swallow': [('m1', ['t1'])], 'slow-exit': [('m1', ['t1'])], 'two-groups': [('m1', ['t1']), ('m2', ['t2'])]}
     for main_name, tds in pairs.get(tag, []):
       if main_name in started:
         for td in tds:
